@@ -20,7 +20,7 @@ NOT decided: that the sweep's arithmetic reaches every bucket; histories of requ
 from .. import typestate
 from ..facts import Prover, FactCache, _k, strip_bitcasts
 from ..hashmodel import Roles, callgraph, reach, classify_pa, fld, is_load_of, hash_calls, at_subscripts
-from ..ir import const_int, resolve_addr
+from ..ir import const_int, resolve_addr, unit_step
 from .util import floc
 
 KEYED = ('cstl_hash_insert', 'cstl_hash_find', 'cstl_hash_erase')
@@ -211,7 +211,7 @@ def check_sweep_quota(m, sw, cleaners, rule):
             if ni is None or ni.op != 'phi' or '$1' not in ni.o:
                 continue
             decs = [sw.get(o) for o in ni.o if o != '$1']
-            if all(d is not None and d.op == 'add' and const_int(d.o[1]) == (1 << 64) - 1 and d.o[0] == n for d in decs):
+            if all(d is not None and unit_step(sw, d.ref) == (n, -1) for d in decs):
                 # the decrement happens in every iteration that cleans
                 if all(sw.dominates(c, d) for d in decs):
                     ok = True
@@ -265,28 +265,70 @@ def check_resize_records(m, f, rule):
         bad.append('the sweep index is not restarted at 0')
     if not st_hsh:
         bad.append('no pending hash function is recorded')
+    from ..facts import phi_leaves
     for s in st_hsh:
-        v = strip_bitcasts(f, s.o[0])
-        facts = pv.facts_at(s)
-        req_null = ('eq', '$2', 'null') in facts
-        req_nonnull = ('ne', '$2', 'null') in facts
-        if v == '$2':
-            if not req_nonnull:
-                bad.append('the requested function is recorded at %s without knowing it is non-NULL' % s.loc())
-        elif is_load_of(f, v, 'bucket.hash'):
-            if not req_null or ('ne', v, 'null') not in facts:
-                bad.append('the existing function is reused at %s although a function was requested (or none exists)' % s.loc())
-        elif isinstance(v, str) and v.startswith('@'):
-            if not req_null:
-                bad.append('the default function is installed at %s although a function was requested' % s.loc())
-            if not any(op == 'eq' and y == 'null' and is_load_of(f, x, 'bucket.hash') for (op, x, y) in facts):
-                bad.append('the default function replaces an existing one at %s' % s.loc())
-        else:
-            bad.append('the pending function recorded at %s is neither the request, the existing one nor the default' % s.loc())
+        for v, lb, lfacts in phi_leaves(f, pv.fc, s.o[0]):
+            facts = set(pv.facts_at(s)) | set(lfacts or ())
+            if isinstance(v, str) and f.get(v) is not None and f.get(v).op == 'select':
+                # select(cond, a, b): split once more
+                from ..facts import cond_atoms
+                sel = f.get(v)
+                alts = [(strip_bitcasts(f, sel.o[1]), facts | set(cond_atoms(f, sel.o[0], True)[0])),
+                        (strip_bitcasts(f, sel.o[2]), facts | set(cond_atoms(f, sel.o[0], False)[0]))]
+            else:
+                alts = [(v, facts)]
+            for v2, fs in alts:
+                req_null = ('eq', '$2', 'null') in fs
+                req_nonnull = ('ne', '$2', 'null') in fs
+                if v2 == '$2':
+                    if not req_nonnull:
+                        bad.append('the requested function is recorded at %s without knowing it is non-NULL' % s.loc())
+                elif is_load_of(f, v2, 'bucket.hash'):
+                    if not req_null or ('ne', v2, 'null') not in fs:
+                        bad.append('the existing function is reused at %s although a function was requested (or none exists)' % s.loc())
+                    w = _writer_between(f, f.get(v2), s, 'bucket.hash')
+                    if w is not None:
+                        bad.append('the existing function recorded at %s was read at %s, before %s() at %s may adopt a pending one: a function '
+                                   'requested by an earlier, still pending resize is replaced by the outgoing one'
+                                   % (s.loc(), f.get(v2).loc(), w.callee, w.loc()))
+                elif isinstance(v2, str) and v2.startswith('@'):
+                    if not req_null:
+                        bad.append('the default function is installed at %s although a function was requested' % s.loc())
+                    if not any(op == 'eq' and y == 'null' and is_load_of(f, x, 'bucket.hash') for (op, x, y) in fs):
+                        bad.append('the default function replaces an existing one at %s' % s.loc())
+                else:
+                    bad.append('the pending function recorded at %s is neither the request, the existing one nor the default' % s.loc())
     if bad:
         rule.violation('cstl_hash_resize:records', '; '.join(sorted(set(bad))), floc(m, f), {})
     else:
         rule.ok('cstl_hash_resize:records', 'rh.count := request, rh.hash := request | existing | default, rh.clean := 0', floc(m, f))
+
+
+def _may_store(module, g, path, seen=None):
+    seen = seen if seen is not None else set()
+    if g is None or g.decl or g.name in seen:
+        return False
+    seen.add(g.name)
+    for i in g.all_insts():
+        if i.op == 'store' and fld(g, i) == path:
+            return True
+        if i.op == 'call' and i.callee and not i.is_intrinsic() and _may_store(module, module.fn(i.callee), path, seen):
+            return True
+    return False
+
+
+def _writer_between(f, ld, st, path):
+    """a call that may store `path` lying on a path from the load to the store"""
+    for c in f.all_insts():
+        if c.op != 'call' or not c.callee or c.is_intrinsic():
+            continue
+        if not _may_store(f.module, f.module.fn(c.callee), path):
+            continue
+        after_load = (c.block is ld.block and c.pos > ld.pos) or (c.block is not ld.block and c.block in f.reachable_from(ld.block))
+        before_store = (c.block is st.block and c.pos < st.pos) or (c.block is not st.block and st.block in f.reachable_from(c.block))
+        if after_load and before_store:
+            return c
+    return None
 
 
 def check_single_lookup(m, f, rule):
